@@ -132,6 +132,13 @@ func (c *gctx) class() *Expr {
 	if c.cfg.Unicode && c.chance(1, 6) {
 		e.UClass = append(e.UClass, []string{"L", "Lu", "Nd", "Ll"}[c.r.Intn(4)])
 	}
+	if c.cfg.Wide && c.chance(1, 3) {
+		// several Unicode classes, so that classes merged by the optimizer share some
+		names := []string{"L", "N", "Lu", "Ll", "Nd", "Latin", "Greek", "Cyrillic", "P"}
+		for n := 1 + c.r.Intn(3); n > 0; n-- {
+			e.UClass = append(e.UClass, names[c.r.Intn(len(names))])
+		}
+	}
 	if c.chance(1, 5) {
 		e.Invert = true
 	}
@@ -182,6 +189,20 @@ func (c *gctx) expr(depth int, consuming bool) *Expr {
 	}
 	if c.cfg.StateBias && c.cfg.States && !c.inRecov && c.chance(1, 4) {
 		return c.stateProbe(depth, consuming)
+	}
+	if c.cfg.Wide && c.chance(1, 8) {
+		// optimizer food: a choice of classes and one-character literals, which
+		// -optimize-grammar folds into one class
+		e := &Expr{Kind: Choice}
+		for n := 2 + c.r.Intn(3); n > 0; n-- {
+			if c.chance(2, 3) {
+				e.Subs = append(e.Subs, c.class())
+			} else {
+				al := c.alphabet()
+				e.Subs = append(e.Subs, &Expr{Kind: Lit, Text: string(al[c.r.Intn(len(al))])})
+			}
+		}
+		return e
 	}
 	for tries := 0; tries < 20; tries++ {
 		switch c.r.Intn(16) {
@@ -484,6 +505,18 @@ func generateOnce(r Rand, cfg Config) *Grammar {
 			rule.Display = []string{"the rest", "item", "a thing"}[r.Intn(3)]
 		}
 		g.Rules = append(g.Rules, rule)
+	}
+	// the classic use of labelled failures: one handler at the top that recovers
+	// from throws made anywhere below, in whatever rule they happen
+	if cfg.Throws && !cfg.FreeRefs && len(g.Rules) > 0 && c.chance(1, 3) {
+		c.rules = nil
+		c.inRecov = true
+		rec := &Expr{Kind: Choice, Subs: []*Expr{c.terminal(), c.terminal(), {Kind: Any}}}
+		c.inRecov = false
+		if cfg.Actions && c.chance(1, 2) {
+			rec = &Expr{Kind: Action, Subs: []*Expr{rec}}
+		}
+		g.Rules[0].Expr = &Expr{Kind: Recover, Subs: []*Expr{g.Rules[0].Expr, rec}, Labels: []string{"E1", "E2"}}
 	}
 	// make every rule reachable: a rule nobody references gets a reference
 	// from an earlier rule (in place of a terminal, or appended)
